@@ -198,6 +198,20 @@ func c12runHistory(evs []c12ev, np, max, ttl int) c12result {
 			}
 			waiting = keep
 		}
+		// the waiting line itself, after every event: those who wait, in the order
+		// in which they accepted (the harness's own record), whatever happened in
+		// between (somebody ahead left, accepted again, a slot freed)
+		{
+			var line []string
+			for _, q := range snap.Queue {
+				if inList(waiting, q) {
+					line = append(line, q)
+				}
+			}
+			if strings.Join(line, ",") != strings.Join(waiting, ",") {
+				addViol(class("fifo"), fmt.Sprintf("step %d (%v): the waiting line is %v, the order of acceptance is %v", i, e, line, waiting))
+			}
+		}
 		launched = len(snap.Starts)
 		live := 0
 		for tid := range running {
